@@ -37,7 +37,7 @@ pub fn monitor(out: &RunOut) -> MonOut {
         let mut expect: Option<(usize, TimingRec)> = None; // after ComputeNext: expect schedule + timers
         let mut announced = false;
         let mut armed: Vec<(u64, TimerArg, bool)> = vec![]; // timers of the current wait: id, arg, fired
-        let mut reboot_timer: Option<(u64, bool)> = None; // 30-minute timer of the reboot wait
+        let mut reboot_timers: Vec<(u64, bool, bool)> = vec![]; // 30-minute timers of the reboot wait: id, fired, accounted for a question
         let mut reboot_questions_in_wait = 0usize;
         let mut prev_question_idx = 0usize;
         let mut used_req = vec![false; reqs.len()];
@@ -72,7 +72,7 @@ pub fn monitor(out: &RunOut) -> MonOut {
                 Kind::TimerArm { id, arg, .. } => {
                     // the reboot wait's own 30-minute timer
                     if in_wait && *arg == TimerArg::For(1_800_000_000_000) {
-                        reboot_timer = Some((*id, false));
+                        reboot_timers.push((*id, false, false));
                         continue;
                     }
                     if let Some(at) = refused_at {
@@ -97,9 +97,9 @@ pub fn monitor(out: &RunOut) -> MonOut {
                             a.2 = true;
                         }
                     }
-                    if let Some((rid, f)) = reboot_timer.as_mut() {
-                        if *rid == *id {
-                            *f = true;
+                    for t in reboot_timers.iter_mut() {
+                        if t.0 == *id {
+                            t.1 = true;
                         }
                     }
                 }
@@ -148,16 +148,18 @@ pub fn monitor(out: &RunOut) -> MonOut {
                 }
                 Kind::Event(EventRec::State(StateRec::WaitingForReboot)) => {
                     reboot_questions_in_wait = 0;
-                    reboot_timer = None;
+                    reboot_timers.clear();
                 }
                 Kind::Policy(PolicyRec::RebootAllowed { .. }) => {
                     if in_wait {
                         reboot_questions_in_wait += 1;
                         if reboot_questions_in_wait > 1 {
                             m.count("R3.reboot_reasked");
-                            let timer_fired = reboot_timer.map(|(_, f)| f).unwrap_or(false);
-                            if timer_fired {
-                                reboot_timer = None;
+                            // any 30-minute timer of this wait that has fired and has not yet been the
+                            // reason of a question (when the next one is armed is the library's business)
+                            let fired = reboot_timers.iter().position(|t| t.1 && !t.2);
+                            if let Some(k) = fired {
+                                reboot_timers[k].2 = true;
                             } else {
                                 // an on-demand request that was still unanswered at the previous question
                                 let k = reqs.iter().enumerate().position(|(k, (inv, rep, _, src))| {
